@@ -278,8 +278,26 @@ macro_rules! peq_same {
 peq_same!(k_peq_same_null, 0u8);
 peq_same!(k_peq_same_bool, 2u8);
 peq_same!(k_peq_same_int, 3u8);
-peq_same!(k_peq_same_float, 4u8);
 peq_same!(k_peq_same_char, 5u8);
+
+/// PartialEq on two finite floats is numeric equality and agrees with compare_eq (list membership `in [..]` uses PartialEq)
+#[cfg_attr(kani, kani::proof)]
+#[cfg_attr(kani, kani::unwind(3))]
+#[cfg_attr(kani, kani::stub(alloc::fmt::format, fmt_stub))]
+#[cfg_attr(kani, kani::stub(fancy_regex::Regex::new, regex_new_stub))]
+#[cfg_attr(kani, kani::solver(kissat))]
+#[cfg_attr(verif_replay, test)]
+fn k_peq_float_finite() {
+    lib_only!();
+    let a: f64 = kani::any();
+    let b: f64 = kani::any();
+    kani::assume(a.is_finite() && b.is_finite());
+    let x = PathAwareValue::Float((p(), a));
+    let y = PathAwareValue::Float((p(), b));
+    kani::assert((x == y) == (a == b), "PartialEq on floats is numeric equality");
+    kani::assert((x == y) == is_true(compare_eq(&x, &y)), "PartialEq agrees with compare_eq");
+    std::mem::forget((x, y));
+}
 
 /// value-in-range arms of compare_eq delegate to is_within with the operands in the right order
 #[cfg_attr(kani, kani::proof)]
